@@ -13,7 +13,8 @@
     ensureColumnNamesAreNotEmpty, insertBlock (save block, index it, record the async
     block), the arrival of async blocks in ANY order ([arrive], a permutation standing
     for worker scheduling), sortBlocks by offset, the table object, the table index,
-    and the order of writes (blocks and indices, table index, table LAST).
+    and the order of writes (blocks and indices, table index, table LAST); the panic of
+    the block indexer on key indices that repeat a column (unreachable through KeyIndices).
     Not modelled: profile, progress bar, store I/O errors, uint32 wrap of RowsCount
     (fewer than 2^32 rows), compression.
 
@@ -25,7 +26,7 @@
                    order of (arrival[i mod len], i)  (model only; Go schedules for real)
          goparams  (workers delimiter)  (Go only)
       C01 observation = (status columns pk rowcount (block ...) export)
-         status 0 ok | 1 error (unknown key column / cell over the limit), rest empty
+         status 0 ok | 1 error (unknown key column / cell over the limit) | 2 panic, rest empty
          block = node of crows; export = () for kind 0, else node of crows (header first)
          crow = (0 cell ...) the row, or (1 keycell ...) when its key is ambiguous: some single
          run holds two different rows with that key (survivor depends on the unstable sort)
@@ -46,22 +47,29 @@ From W.model Require Import Sorter.
 From Coq Require Import Arith.
 Local Open Scope N_scope.
 
-(** slice.KeyIndices: for every key name, the indices of ALL columns carrying it
-    (the loop says [continue], not [break]); error when a name matches no column *)
+(** slice.KeyIndices: for every key name, the indices of ALL columns carrying it (the
+    loop says [continue], not [break]); error when a name matches no column, and error
+    "specified more than once" when a matching column was already taken by the key *)
 Fixpoint indices_of (k : bytes) (i : nat) (cols : list bytes) : list nat :=
   match cols with
   | [] => []
   | c :: cols' => if beqb c k then i :: indices_of k (S i) cols' else indices_of k (S i) cols'
   end.
-Fixpoint key_indices (cols names : list bytes) : option (list nat) :=
+Fixpoint key_indices_loop (cols names : list bytes) (seen : list nat) : option (list nat) :=
   match names with
   | [] => Some []
   | k :: names' =>
-      match indices_of k 0 cols with
-      | [] => None
-      | l => match key_indices cols names' with None => None | Some r => Some (l ++ r) end
-      end
+      let l := indices_of k 0 cols in
+      if existsb (fun i => existsb (Nat.eqb i) seen) l then None
+      else match l with
+           | [] => None
+           | _ => match key_indices_loop cols names' (l ++ seen) with
+                  | None => None
+                  | Some r => Some (l ++ r)
+                  end
+           end
   end.
+Definition key_indices (cols names : list bytes) : option (list nat) := key_indices_loop cols names [].
 
 (** ensureColumnNamesAreNotEmpty: empty names become unnamed__<j>, j counting up from 1
     past names already taken *)
@@ -150,9 +158,14 @@ Definition sort_blocks (l : list asyncblock) : list asyncblock := fold_right ins
 
 Inductive ingest_result :=
 | IOk (T : table) (tidx : list key)
-| IErrKey          (* KeyIndices: key column not found *)
+| IErrKey          (* KeyIndices: key column not found, or specified more than once *)
 | IErrCell         (* AddRow: cell value is too long *)
+| IPanic           (* key indices repeating a column handed directly to the inserter: PickFrom panics *)
 | IFuel.           (* model artefact: never (proved) *)
+
+(** a key index list with a repeated column *)
+Fixpoint has_dup (l : list nat) : bool :=
+  match l with [] => false | x :: l' => existsb (Nat.eqb x) l' || has_dup l' end.
 
 Section Ingest.
   Variable H : list bytes -> N.
@@ -174,12 +187,17 @@ Section Ingest.
     let tidx := map ab_pk sorted in
     (T, tidx, wr ++ [WTableIdx T tidx; WTable T]).
 
-  (** IngestTableFromSorter *)
+  (** IngestTableFromSorter.  KeyIndices never returns a repeated column; if a caller
+      sets key indices that repeat one directly, indexing the first block panics
+      ("corrupted strList bytes", StrListEditor.findOffsets via PickFrom) in the worker
+      goroutine and the process dies; what was written before is not modelled. *)
   Definition ingest_from_sorter (columns : list bytes) (pk : list nat) (s : sorter)
     : ingest_result * list wobj :=
     match sorted_blocks sort_rows pk (length columns) [] s with
     | None => (IFuel, [])
-    | Some bs => let '(T, tidx, w) := ingest_blocks columns pk bs in (IOk T tidx, w)
+    | Some bs =>
+        if has_dup pk && negb (match bs with [] => true | _ => false end) then (IPanic, [])
+        else let '(T, tidx, w) := ingest_blocks columns pk bs in (IOk T tidx, w)
     end.
 
   (** ingestTable: SortFile (header, KeyIndices, AddRow for every record) then the above *)
@@ -274,6 +292,7 @@ Definition run_C01 (c : tree) : tree :=
             | _ => Node (Node (Leaf 0 :: map t_bytes (t_columns T)) :: map cr (rows_of T))
             end]
   | IFuel => Leaf 98
+  | IPanic => Node [Leaf 2; Node []; Node []; Leaf 0; Node []; Node []]
   | _ => Node [Leaf 1; Node []; Node []; Leaf 0; Node []; Node []]
   end.
 
@@ -295,6 +314,7 @@ Definition run_C03 (c : tree) : tree :=
             t_nat (length (t_blockidx T));
             Leaf (issue_code (diagnose T))]
   | IFuel => Leaf 98
+  | IPanic => Node [Leaf 2; Leaf 0; Node []; Node []; Node []; Leaf 0; Leaf 0]
   | _ => Node [Leaf 1; Leaf 0; Node []; Node []; Node []; Leaf 0; Leaf 0]
   end.
 
